@@ -36,7 +36,8 @@ def strip(text: str) -> str:
 
 def scan():
     bad = []
-    for f in sorted((ROOT / "coq" / "theories").rglob("*.v")):
+    files = sorted((ROOT / "coq" / "theories").rglob("*.v")) + sorted((ROOT / "coq" / "link").rglob("*.v")) + sorted((ROOT / "ocaml").rglob("*.v"))
+    for f in files:
         for ln, line in enumerate(strip(f.read_text()).splitlines(), 1):
             # `Variable`/`Hypothesis` are checked separately: allowed inside sections only
             if PAT.search(line):
